@@ -44,6 +44,14 @@ def seeds():
                 caught.append("%s: %s" % (key[6:], "VIOLATION (%d lines)" % v["n_violation_lines"] if v["n_violation_lines"] else ("exit %s, no VIOLATION line" % v["exit"])))
                 fr = v.get("first_replay") or {}
                 rep = str(fr.get("what") or fr.get("theorem_or_correspondence") or "")[:140].replace("|", "/").replace("\n", " ")
+        rg = m.get("regression")
+        if rg:
+            if not rg.get("applies"):
+                caught.append("final regression at %s: patch no longer applies" % rg.get("head"))
+            elif rg.get("demo_patched_rc") == 0:
+                caught.append("final regression at %s: no longer a violation (demo passes with the patch); check: %s" % (rg.get("head"), (rg.get("first_violation_line") or "quiet").split(" replay=")[0] + (" no-failing-input-found" if "no-failing-input-found" in (rg.get("first_violation_line") or "") else "")))
+            else:
+                caught.append("final regression at %s: %s" % (rg.get("head"), "exit %s, %s VIOLATION line(s)%s" % (rg.get("check_exit"), rg.get("n_violation_lines"), " (no-failing-input-found)" if "no-failing-input-found" in (rg.get("first_violation_line") or "") else "")))
         for old in m.get("earlier_check_runs", []):
             for key, v in old.items():
                 if not v.get("n_violation_lines"):
